@@ -69,71 +69,82 @@ pub fn without<T: Copy>(a: &[T; MAXW], n: usize, p: usize) -> ([T; MAXW], usize)
 }
 
 // ---- delete_by_index
-pub fn del_index(d: &B, buf: &mut Vec<u8>) {
-    let root = d.node(d.root);
-    let idx: i32 = kani::any();
-    kani::assume(idx != i32::MIN); // i32::MIN is C20's subject (overflow in abs)
-    let r = delete_by_index(d.bytes(), idx, buf);
-    if root.kind != K_ARR {
-        assert!(r == Err(Error::InvalidJsonType), "delete_by_index on a non-array is InvalidJsonType");
-        return;
-    }
-    let (items, n) = kids_blobs(d, d.root);
-    match eff_index(idx, n) {
-        None => expect_ok(r, buf, &d.root_blob()),
-        Some(p) => {
-            // p is symbolic: case split so that each expected layout is concrete
-            let mut k = 0;
-            while k < n {
-                if p == k {
-                    let (it, m) = without(&items, n, k);
-                    expect_ok(r.clone(), buf, &x_arr(&it[..m]));
-                }
-                k += 1;
+/// index: every value -5..=5 by case split (constant on each path) or, with `far`, every other i32
+/// except i32::MIN at once (always out of range here: no-op copy)
+pub fn index_arms(far: bool, f: impl Fn(i32)) {
+    let i: i32 = kani::any();
+    if far {
+        kani::assume((i > 5 || i < -5) && i != i32::MIN);
+        f(i);
+    } else {
+        kani::assume(i >= -5 && i <= 5);
+        let mut v = -5;
+        while v <= 5 {
+            if i == v {
+                f(i);
             }
+            v += 1;
         }
     }
-    kani::cover!(idx < 0 && eff_index(idx, n).is_some(), "negative index in range");
-    kani::cover!(eff_index(idx, n).is_none() && n > 0, "out of range: no-op");
+}
+pub fn del_index(d: &B, far: bool) {
+    let root = d.node(d.root);
+    index_arms(far, |idx| {
+        let mut buf = Vec::new();
+        let r = delete_by_index(d.bytes(), idx, &mut buf);
+        if root.kind != K_ARR {
+            expect_err(r, &buf, Error::InvalidJsonType);
+        } else {
+            let (items, n) = kids_blobs(d, d.root);
+            match eff_index(idx, n) {
+                None => expect_ok(r, &buf, &d.root_blob()),
+                Some(p) => {
+                    let (it, m) = without(&items, n, p);
+                    expect_ok(r, &buf, &x_arr(&it[..m]));
+                }
+            }
+        }
+        core::mem::forget(buf);
+    });
 }
 
-
 // ---- array_insert: position clamped into 0..=len, negative from the end; a non-array is a one-element list
-pub fn arr_insert(d: &B, new: &B, buf: &mut Vec<u8>) {
+pub fn arr_insert(d: &B, new: &B, far: bool) {
     let root = d.node(d.root);
-    let pos: i32 = kani::any();
-    kani::assume(pos != i32::MIN);
-    let r = array_insert(d.bytes(), pos, new.bytes(), buf);
-    let (mut items, mut n) = kids_blobs(d, d.root);
-    if root.kind != K_ARR {
-        items[0] = d.root_blob();
-        n = 1;
-    }
-    let l = n as i64;
-    let j = if pos < 0 { l + pos as i64 } else { pos as i64 };
-    let p = if j < 0 { 0 } else if j > l { l } else { j } as usize;
-    let nb = new.root_blob();
-    let mut k = 0;
-    while k <= n {
-        if p == k {
-            let mut out = [nb; MAXW + 1];
-            let mut i = 0;
-            while i < k {
-                out[i] = items[i];
-                i += 1;
-            }
-            out[k] = nb;
-            i = k;
-            while i < n {
-                out[i + 1] = items[i];
-                i += 1;
-            }
-            expect_ok(r.clone(), buf, &x_arr(&out[..n + 1]));
+    index_arms(far, |pos| {
+        let mut buf = Vec::new();
+        let r = array_insert(d.bytes(), pos, new.bytes(), &mut buf);
+        let (mut items, mut n) = kids_blobs(d, d.root);
+        if root.kind != K_ARR {
+            items[0] = d.root_blob();
+            n = 1;
         }
-        k += 1;
-    }
-    kani::cover!(pos < 0 && p > 0, "negative position inside the array");
-    kani::cover!(pos as i64 > l, "position clamped to the end");
+        let l = n as i64;
+        let j = if pos < 0 { l + pos as i64 } else { pos as i64 };
+        let p = if j < 0 { 0 } else if j > l { l } else { j } as usize;
+        let nb = new.root_blob();
+        // p is symbolic only in the `far` run, where it is 0 or n
+        let mut k = 0;
+        while k <= n {
+            if p == k {
+                let mut out = [nb; MAXW + 1];
+                let mut i = 0;
+                while i < k {
+                    out[i] = items[i];
+                    i += 1;
+                }
+                out[k] = nb;
+                i = k;
+                while i < n {
+                    out[i + 1] = items[i];
+                    i += 1;
+                }
+                expect_ok(r.clone(), &buf, &x_arr(&out[..n + 1]));
+            }
+            k += 1;
+        }
+        core::mem::forget(buf);
+    });
 }
 
 // ---- delete_by_name: object member, or every string element equal to the name
@@ -485,10 +496,8 @@ fn keypath_deleted(d: &B, id: usize, steps: &[(bool, i32, Name)], depth: usize) 
     }
     res
 }
-pub fn del_keypath(d: &B, form: usize, buf: &mut Vec<u8>) {
+fn del_keypath_run(d: &B, form: usize, i: i32, j: i32) {
     let root = d.node(d.root);
-    let (i, j): (i32, i32) = (kani::any(), kani::any());
-    kani::assume(i > -6 && i < 6 && j > -6 && j < 6);
     let (n, m) = (Name::of_len(1), Name::of_len(1));
     let p_i = KeyPath::Index(i);
     let p_j = KeyPath::Index(j);
@@ -504,16 +513,37 @@ pub fn del_keypath(d: &B, form: usize, buf: &mut Vec<u8>) {
         4 => ([&p_n, &p_i], [(false, 0, nn), (true, i, mm)], 2),
         _ => ([&p_n, &p_m], [(false, 0, nn), (false, 0, mm)], 2),
     };
-    let r = delete_by_keypath(d.bytes(), path[..cnt].iter().copied(), buf);
+    let mut buf = Vec::new();
+    let r = delete_by_keypath(d.bytes(), path[..cnt].iter().copied(), &mut buf);
     if root.kind != K_ARR && root.kind != K_OBJ {
-        expect_err(r, buf, Error::InvalidJsonType);
-        return;
+        expect_err(r, &buf, Error::InvalidJsonType);
+    } else {
+        let e = match keypath_deleted(d, d.root, &steps[..cnt], 0) {
+            Some(b) => b,
+            None => d.root_blob(),
+        };
+        expect_ok(r, &buf, &e);
     }
-    let e = match keypath_deleted(d, d.root, &steps[..cnt], 0) {
-        Some(b) => b,
-        None => d.root_blob(),
+    core::mem::forget(buf);
+}
+/// indices range over -4..=4 (first) and -3..=3 (second) by case split
+pub fn del_keypath(d: &B, form: usize) {
+    let arms = |lo: i32, hi: i32, f: &dyn Fn(i32)| {
+        let i: i32 = kani::any();
+        kani::assume(i >= lo && i <= hi);
+        let mut v = lo;
+        while v <= hi {
+            if i == v {
+                f(i);
+            }
+            v += 1;
+        }
     };
-    expect_ok(r, buf, &e);
+    match form {
+        0 | 3 | 4 => arms(-4, 4, &|i| del_keypath_run(d, form, i, 0)),
+        2 => arms(-3, 3, &|i| arms(-3, 3, &|j| del_keypath_run(d, form, i, j))),
+        _ => del_keypath_run(d, form, 0, 0),
+    }
 }
 
 // ================= harness instances
@@ -526,14 +556,15 @@ fn with_buf(f: impl Fn(&mut Vec<u8>)) {
 
 //@ props: C06, C07
 //@ timeout: 1800
-//@ harness: c06_delidx_s0, c06_delidx_s2, c06_delidx_s3567
-//@ desc: delete_by_index with a symbolic i32 index (every value except i32::MIN, which C20 covers) on [x,y,s], [x,{k:y},n], {k:x,kk:y}, scalar, [], {}: negative counts from the end, out of range is a no-op copy, a non-array is InvalidJsonType; output byte-identical to the README encoding of the edited tree
+//@ harness: c06_delidx_s0, c06_delidx_s2, c06_delidx_s3567, c06_delidx_far
+//@ desc: delete_by_index with every index -5..=5 by case split and (c06_delidx_far, on [[x],y] and []) every other i32 except i32::MIN (which C20 covers) at once on [x,y,s], [x,{k:y},n], {k:x,kk:y}, scalar, [], {}: negative counts from the end, out of range is a no-op copy, a non-array is InvalidJsonType; output byte-identical to the README encoding of the edited tree
 //@ fns: delete_by_index, delete_jsonb_by_index, ArrayBuilder::push_raw, ArrayBuilder::build_into, write_entry, reserve_jentries, replace_jentry
 //@ bounds: <= 3 elements, depth 2
 //@ stubs: parse_value, from_slice -> panic | drop_in_place -> no-op
-harness!(c06_delidx_s0, shapes_split(0, &D3, 2, |d| with_buf(|b| del_index(d, b))));
-harness!(c06_delidx_s2, with_shape(2, D3[0], D3[1], |d| with_buf(|b| del_index(d, b))));
-harness!(c06_delidx_s3567, split1(4, |k| with_shape(if k == 0 { 3 } else { 4 + k }, D3[0], D3[1], |d| with_buf(|b| del_index(d, b)))));
+harness!(c06_delidx_s0, with_shape(0, D3[0], D3[1], |d| del_index(d, false)));
+harness!(c06_delidx_s2, with_shape(2, D3[2], D3[0], |d| del_index(d, false)));
+harness!(c06_delidx_s3567, split1(4, |k| with_shape(if k == 0 { 3 } else { 4 + k }, D3[0], D3[1], |d| del_index(d, false))));
+harness!(c06_delidx_far, split1(2, |k| with_shape([1, 6][k], D3[0], D3[1], |d| del_index(d, true))));
 
 fn new_doc(k: usize, f: impl Fn(&B)) {
     match k {
@@ -545,14 +576,15 @@ fn new_doc(k: usize, f: impl Fn(&B)) {
 }
 //@ props: C06, C07
 //@ timeout: 1800
-//@ harness: c06_arrins_s0, c06_arrins_s1, c06_arrins_s3567
-//@ desc: array_insert with a symbolic i32 position (all but i32::MIN) and a new value that is a number, null, an array or an object: position clamped into 0..=len, negative from the end; a non-array target counts as a one-element list
+//@ harness: c06_arrins_s0, c06_arrins_s1, c06_arrins_s3567, c06_arrins_far
+//@ desc: array_insert with every position -5..=5 by case split and (c06_arrins_far) every other i32 except i32::MIN at once, and a new value that is a number, null, an array or an object: position clamped into 0..=len, negative from the end; a non-array target counts as a one-element list
 //@ fns: array_insert, array_insert_jsonb, ArrayBuilder::build_into, write_entry
 //@ bounds: <= 3 elements before the insertion
 //@ stubs: parse_value, from_slice -> panic | drop_in_place -> no-op
-harness!(c06_arrins_s0, split1(4, |k| new_doc(k, |nw| with_shape(0, D3[0], D3[1], |d| with_buf(|b| arr_insert(d, nw, b))))));
-harness!(c06_arrins_s1, split1(2, |k| new_doc(k * 2, |nw| with_shape(1, D3[0], D3[1], |d| with_buf(|b| arr_insert(d, nw, b))))));
-harness!(c06_arrins_s3567, split2(4, 2, |s, k| new_doc(k * 3, |nw| with_shape(if s == 0 { 3 } else { 4 + s }, D3[0], D3[1], |d| with_buf(|b| arr_insert(d, nw, b))))));
+harness!(c06_arrins_s0, split1(2, |k| new_doc(k * 3, |nw| with_shape(0, D3[0], D3[1], |d| arr_insert(d, nw, false)))));
+harness!(c06_arrins_s1, split1(2, |k| new_doc(1 + k, |nw| with_shape(1, D3[0], D3[1], |d| arr_insert(d, nw, false)))));
+harness!(c06_arrins_s3567, split1(4, |s| new_doc(0, |nw| with_shape(if s == 0 { 3 } else { 4 + s }, D3[0], D3[1], |d| arr_insert(d, nw, false)))));
+harness!(c06_arrins_far, split1(2, |k| new_doc(0, |nw| with_shape([1, 6][k], D3[0], D3[1], |d| arr_insert(d, nw, true)))));
 
 //@ props: C06, C07
 //@ timeout: 1800
@@ -568,14 +600,15 @@ harness!(c06_delname_s4567, split1(4, |k| with_shape(4 + k, D3[0], D3[1], |d| wi
 
 //@ props: C06, C07
 //@ timeout: 1800
-//@ harness: c06_objins_s3_l1, c06_objins_s3_l2, c06_objins_s8, c06_objins_other
-//@ desc: object_insert with a symbolic key (1 or 2 bytes), symbolic update flag and a new value (number / array): inserted in key order, an existing key is replaced only with the flag, otherwise ObjectDuplicateKey; InvalidObject on non-objects; nothing written on errors
+//@ harness: c06_objins_s3_l1, c06_objins_s3_l2, c06_objins_s8, c06_objins_s9, c06_objins_other
+//@ desc: object_insert with a symbolic key (1 or 2 bytes), symbolic update flag and a new value (number / array) into {k:x,kk:y}, {a:{j:x},b:y,cc:null} and {kk:x,k:y,k':true} (a longer key sorting before shorter ones): inserted in key order, an existing key is replaced only with the flag, otherwise ObjectDuplicateKey; InvalidObject on non-objects; nothing written on errors
 //@ fns: object_insert, object_insert_jsonb, iteate_object_keys, ObjectBuilder::build_into
 //@ bounds: <= 3 members before the insertion
 //@ stubs: parse_value, from_slice -> panic | drop_in_place -> no-op
 harness!(c06_objins_s3_l1, split1(2, |k| new_doc(k * 2, |nw| with_shape(3, D3[0], D3[1], |d| with_buf(|b| obj_insert(d, nw, 1, b))))));
 harness!(c06_objins_s3_l2, new_doc(0, |nw| with_shape(3, D3[1], D3[0], |d| with_buf(|b| obj_insert(d, nw, 2, b)))));
 harness!(c06_objins_s8, new_doc(3, |nw| with_shape(8, D3[0], D3[1], |d| with_buf(|b| obj_insert(d, nw, 1, b)))));
+harness!(c06_objins_s9, split1(2, |l| new_doc(0, |nw| with_shape(9, D3[0], D3[1], |d| with_buf(|b| obj_insert(d, nw, 1 + l, b))))));
 harness!(c06_objins_other, split1(4, |k| new_doc(0, |nw| with_shape([0, 5, 6, 7][k], D3[0], D3[1], |d| with_buf(|b| obj_insert(d, nw, 1, b))))));
 
 //@ props: C06, C07
@@ -667,16 +700,16 @@ fn kdoc(k: usize, f: impl Fn(&B)) {
 //@ props: C06, C07
 //@ timeout: 1800
 //@ harness: c06_delpath_i, c06_delpath_n, c06_delpath_ii, c06_delpath_in, c06_delpath_ni, c06_delpath_nn
-//@ desc: delete_by_keypath with one- and two-element key paths ({i}, {name}, {i,j}, {i,name}, {name,i}, {name,name}; indices -5..=5, symbolic names) on [n,s,null], [[n,s],n], [{k:n},s], {k:n,kk:s}, {k:[n,s]}, {a:{j:n},b:s} and a scalar: the addressed element/member is removed (negative indices from the end), paths that do not resolve or run into/past scalars leave the document unchanged, scalars are InvalidJsonType
+//@ desc: delete_by_keypath with one- and two-element key paths ({i}, {name}, {i,j}, {i,name}, {name,i}, {name,name}; indices -4..=4 by case split, symbolic names) on [n,s,null], [[n,s],n], [{k:n},s], {k:n,kk:s}, {k:[n,s]}, {a:{j:n},b:s} and a scalar: the addressed element/member is removed (negative indices from the end), paths that do not resolve or run into/past scalars leave the document unchanged, scalars are InvalidJsonType
 //@ fns: delete_by_keypath, delete_by_keypath_jsonb, delete_jsonb_array_by_keypath, delete_jsonb_object_by_keypath, ArrayBuilder::push_array, ObjectBuilder::push_object
-//@ bounds: paths <= 2 elements, depth 2, indices -5..=5
+//@ bounds: paths <= 2 elements, depth 2, indices -4..=4 (all positions from below -len to above len)
 //@ stubs: parse_value, from_slice -> panic | drop_in_place -> no-op
-harness!(c06_delpath_i, split1(7, |k| kdoc(k, |d| with_buf(|b| del_keypath(d, 0, b)))));
-harness!(c06_delpath_n, split1(7, |k| kdoc(k, |d| with_buf(|b| del_keypath(d, 1, b)))));
-harness!(c06_delpath_ii, split1(3, |k| kdoc(k, |d| with_buf(|b| del_keypath(d, 2, b)))));
-harness!(c06_delpath_in, split1(3, |k| kdoc(k, |d| with_buf(|b| del_keypath(d, 3, b)))));
-harness!(c06_delpath_ni, split1(3, |k| kdoc(3 + k, |d| with_buf(|b| del_keypath(d, 4, b)))));
-harness!(c06_delpath_nn, split1(3, |k| kdoc(3 + k, |d| with_buf(|b| del_keypath(d, 5, b)))));
+harness!(c06_delpath_i, split1(7, |k| kdoc(k, |d| del_keypath(d, 0))));
+harness!(c06_delpath_n, split1(7, |k| kdoc(k, |d| del_keypath(d, 1))));
+harness!(c06_delpath_ii, split1(3, |k| kdoc(k, |d| del_keypath(d, 2))));
+harness!(c06_delpath_in, split1(3, |k| kdoc(k, |d| del_keypath(d, 3))));
+harness!(c06_delpath_ni, split1(3, |k| kdoc(3 + k, |d| del_keypath(d, 4))));
+harness!(c06_delpath_nn, split1(3, |k| kdoc(3 + k, |d| del_keypath(d, 5))));
 
 //@ props: C06
 //@ timeout: 300
